@@ -168,43 +168,203 @@ def same_obs(a, b, tol=None):
     if tol:
         xa = [float(tofrac(x)) for x in a["data"]]
         xb = [float(tofrac(x)) for x in b["data"]]
-        scale = max([1.0] + [abs(x) for x in xa])
+        # RELATIVE to the magnitude of the expected values (no absolute floor: scaled twins are tiny)
+        scale = max([abs(x) for x in xa] + [0.0])
         return all(abs(x - y) <= tol * scale for x, y in zip(xa, xb))
     return [tofrac(x) for x in a["data"]] == [tofrac(x) for x in b["data"]]
+
+
+# ---------------------------------------------------------------------------------------
+# dtype preservation: integer (also beyond 2**53), float32 and complex operands on either side of
+# the operators and through the constructor paths; result dtype and values must be numpy's for
+# the per-point operation
+# ---------------------------------------------------------------------------------------
+def build_dt(o):
+    dt = np.dtype(o.get("dtype", "float64"))
+    if o["k"] == "scalar":
+        v = o["data"][0]
+        return complex(v[0], v[1]) if dt.kind == "c" else (int(v) if dt.kind == "i" else float(v))
+    if dt.kind == "c":
+        a = np.array([complex(v[0], v[1]) for v in o["data"]], dtype=dt)
+    else:
+        a = np.array(o["data"], dtype=dt)
+    a = a.reshape(o["shape"])
+    return FeArray.asfearray(a) if o["k"] == "fe" else a
+
+
+def _dt_entry(x):
+    if isinstance(x, (complex, np.complexfloating)):
+        return {"re": frac(x.real), "im": frac(x.imag)}
+    if isinstance(x, (int, np.integer)) and not isinstance(x, (bool, np.bool_)):
+        return int(x)
+    return frac(x)
+
+
+def observe_dt(r):
+    if isinstance(r, (int, float, complex)) and not isinstance(r, np.generic):
+        return {"kind": 2, "shape": [], "dtype": type(r).__name__, "data": [_dt_entry(r)]}
+    a = np.asarray(r)
+    return {"kind": 1 if isinstance(r, FeArray) else 0, "shape": list(a.shape), "dtype": str(a.dtype),
+            "data": [_dt_entry(x) for x in a.ravel().tolist()] if a.dtype.kind != "f" else [frac(x) for x in a.ravel()]}
+
+
+DT_BIN = {"add": operator.add, "sub": operator.sub, "mul": operator.mul}
+
+
+def run_dt(c):
+    A = [build_dt(o) for o in c["args"]]
+    s = c["sub"]
+    if s in DT_BIN:
+        return DT_BIN[s](A[0], A[1])
+    if s == "matmul":
+        return A[0] @ A[1]
+    if s == "dot":
+        return A[0].dot(A[1])
+    if s == "T":
+        return A[0].T
+    if s == "sum":
+        return A[0].sum(axis=-1)
+    if s == "neg":
+        return -A[0]
+    if s == "FeArray":
+        return FeArray(np.asarray(A[0]))
+    if s == "asfearray_bc":
+        return FeArray.asfearray(np.asarray(A[0]), broadcastFeArrays=True)
+    if s == "Transpose":
+        return Transpose(A[0])
+    if s == "Trace":
+        return Trace(A[0])
+    raise SystemExit("bad dtype sub-op " + s)
+
+
+def oracle_dt(c):
+    """per-(e, p) loop with plain numpy arrays of the same dtypes"""
+    kinds = [o["k"] for o in c["args"]]
+    arrs = [np.asarray(build_dt(o)) if o["k"] != "scalar" else build_dt(o) for o in c["args"]]
+    s = c["sub"]
+    if s == "FeArray":
+        return dict(observe_dt(arrs[0]), kind=1)
+    if s == "asfearray_bc":
+        return dict(observe_dt(arrs[0][None, None]), kind=1)
+    f = {"add": operator.add, "sub": operator.sub, "mul": operator.mul, "matmul": operator.matmul,
+         "dot": lambda a, b: np.tensordot(a, b, axes=1), "T": lambda a: np.transpose(a), "Transpose": lambda a: np.swapaxes(a, -1, -2),
+         "sum": lambda a: a.sum(axis=-1), "neg": operator.neg, "Trace": lambda a: np.trace(a, axis1=-2, axis2=-1)}[s]
+    leads = [a.shape[:2] for a, k in zip(arrs, kinds) if k == "fe"]
+    Ne, nPg = np.broadcast_shapes(*leads)
+
+    def at(a, k, e, p):
+        return a[e if a.shape[0] > 1 else 0, p if a.shape[1] > 1 else 0] if k == "fe" else a
+    rows = [[f(*[at(a, k, e, p) for a, k in zip(arrs, kinds)]) for p in range(nPg)] for e in range(Ne)]
+    return dict(observe_dt(np.array(rows)), kind=1)
+
+
+def check_case(c):
+    """-> (observation of the implementation, independent oracle or None, agreement or None)"""
+    dt = c["op"] == "dtype"
+    try:
+        with np.errstate(all="ignore"):
+            r = run_dt(c) if dt else run_case(c)
+        o = observe_dt(r) if dt else observe(r)
+    except SystemExit:
+        raise
+    except Exception as ex:  # the error branches are part of the model
+        code = 9
+        for t_, v in EXC.items():
+            if isinstance(ex, t_):
+                code = v
+                break
+        o = {"kind": 10 + code, "shape": [], "data": [], "note": "%s: %s" % (type(ex).__name__, str(ex)[:160])}
+    try:
+        orc = oracle_dt(c) if dt else loop_oracle(c)
+    except Exception:
+        orc = _err() if dt else None
+    ok = None if orc is None else same_any(orc, o, c)
+    return o, orc, ok
+
+
+def same_any(a, b, c):
+    if c["op"] == "dtype":
+        if a["kind"] >= 10 and b["kind"] >= 10:
+            return True
+        return all(a.get(k) == b.get(k) for k in ("kind", "shape", "dtype", "data"))
+    return same_obs(a, b, c.get("tol"))
 
 
 def main():
     req = json.load(sys.stdin)
     out = []
     for c in req["cases"]:
-        try:
-            with np.errstate(all="ignore"):
-                r = run_case(c)
-            o = observe(r)
-        except SystemExit:
-            raise
-        except Exception as ex:  # the error branches are part of the model
-            code = 9
-            for t, v in EXC.items():
-                if isinstance(ex, t):
-                    code = v
-                    break
-            o = {"kind": 10 + code, "shape": [], "data": [], "note": "%s: %s" % (type(ex).__name__, str(ex)[:160])}
+        o, orc, ok = check_case(c)
         o["id"] = c["id"]
-        try:
-            orc = loop_oracle(c)
-        except Exception:
-            orc = None
-        if orc is not None:
-            o["oracle_ok"] = same_obs(orc, o, c.get("tol"))
-            if not o["oracle_ok"]:
+        if ok is not None:
+            o["oracle_ok"] = ok
+            if not ok:
                 o["oracle"] = orc
         out.append(o)
     # real Field objects (a small mesh): operator(c, field) must be operator(c, field())
     real = []
     if req.get("real_fields"):
         real = real_field_checks(req["real_fields"])
-    json.dump({"results": out, "real_fields": real}, sys.stdout)
+    sweep = field_sweep_checks(req["field_sweeps"]) if req.get("field_sweeps") else None
+    json.dump({"results": out, "real_fields": real, "field_sweeps": sweep}, sys.stdout)
+
+
+def field_sweep_checks(spec):
+    """STATE carried between evaluations of one Field object: the (node, dof) sweep that
+    BiLinearForm / LinearForm.Integrate_e perform.  The SAME two Field objects u, w are moved
+    through every (node, dof) state (forms order, then a scrambled order, revisiting states); after
+    every move each operator of the operator table is applied and compared with plain numpy on the
+    field's own Gauss-point values, rebuilt here from groupElem.Get_N_pg (never from field())."""
+    from EasyFEA.FEM._group_elem import GroupElemFactory
+    from EasyFEA.FEM._utils import ElemType, MatrixType
+    bad = []
+    nchecks = 0
+    for item in spec:
+        et = getattr(ElemType, item["elem"])
+        gid, nPe, dim = GroupElemFactory.DICT_ELEMTYPE[et][:3]
+        g = GroupElemFactory.GROUP_CLASS_MAP[et](gid, np.array(item["connect"], dtype=int), np.array(item["coords"], dtype=float))
+        dof_n = item["dof_n"]
+        try:
+            u, w = Field(g, dof_n, MatrixType.mass), Field(g, dof_n, MatrixType.mass)
+        except AssertionError:
+            continue
+        N_pg = np.asarray(g.Get_N_pg(MatrixType.mass))
+        nPg = N_pg.shape[0]
+
+        def values(node, dof):
+            E = np.zeros((1, nPg, dof_n))
+            E[..., dof] = N_pg[:, 0, node].reshape(1, nPg)
+            return E
+        c = 2.0
+        cv = np.array(item["vec"][:dof_n], dtype=float)
+        C = np.array(item["mat"], dtype=float)[:dof_n, :dof_n]
+        for step, (nu, du, nw, dw) in enumerate(item["states"]):
+            u._Set_current_active_node(nu)
+            u._Set_current_active_dof(du)
+            w._Set_current_active_node(nw)
+            w._Set_current_active_dof(dw)
+            Eu, Ew = values(nu, du), values(nw, dw)
+            table = [("u()", lambda: u(), Eu), ("u*c", lambda: u * c, Eu * c), ("c*u", lambda: c * u, c * Eu),
+                     ("u+c", lambda: u + c, Eu + c), ("c+u", lambda: c + u, c + Eu), ("u-c", lambda: u - c, Eu - c),
+                     ("c-u", lambda: c - u, c - Eu), ("u/c", lambda: u / c, Eu / c),
+                     ("u*cv", lambda: u * cv, Eu * cv), ("cv*u", lambda: cv * u, cv * Eu), ("u-cv", lambda: u - cv, Eu - cv),
+                     ("cv-u", lambda: cv - u, cv - Eu), ("u/cv", lambda: u / cv, Eu / cv),
+                     ("C@u", lambda: C @ u, np.einsum("ij,epj->epi", C, Eu)), ("u@C", lambda: u @ C, np.einsum("epi,ij->epj", Eu, C)),
+                     ("u.dot(w)", lambda: u.dot(w), np.einsum("epi,epi->ep", Eu, Ew)), ("u@w", lambda: u @ w, np.einsum("epi,epi->ep", Eu, Ew)),
+                     ("u*w", lambda: u * w, Eu * Ew), ("u-w", lambda: u - w, Eu - Ew)]
+            for name, f, want in table:
+                nchecks += 1
+                try:
+                    with np.errstate(all="ignore"):
+                        got = f()
+                    ok = isinstance(got, FeArray) and np.shape(got) == want.shape and np.array_equal(np.asarray(got), want, equal_nan=True)
+                    info = {"type": type(got).__name__, "shape": list(np.shape(got)), "got": [float(x) for x in np.asarray(got, dtype=float).ravel()[:8]]}
+                except Exception as ex:
+                    ok, info = False, {"error": "%s: %s" % (type(ex).__name__, str(ex)[:100])}
+                if not ok:
+                    bad.append(dict(info, elem=item["elem"], dof_n=dof_n, step=step, state=[nu, du, nw, dw], op=name,
+                                    want=[float(x) for x in want.ravel()[:8]]))
+    return {"checks": nchecks, "bad": bad}
 
 
 def real_field_checks(spec):
@@ -256,6 +416,8 @@ KNAME = {"fe": "FeArray", "field": "Field", "plain": "ndarray", "scalar": "float
 
 
 def describe(c):
+    if c["op"] == "dtype":
+        return "%s(%s)" % (c["sub"], ", ".join("%s%s[%s]" % (KNAME[o["k"]], tuple(o["shape"]), o.get("dtype", "float64")) for o in c["args"]))
     ops = ["%s%s" % (KNAME[o["k"]], tuple(o["shape"]) if o["k"] != "scalar" else "") for o in c["args"]]
     op = c["op"]
     if op == "ufunc2":
